@@ -40,6 +40,11 @@ def intervals(art):
                 last[t] = k
     for t in art.sg["outputs"]:
         last[t] = len(ops)
+    for i, t in enumerate(T):
+        if t.get("is_variable") and t["data"] is None and i in last:
+            # state tensors keep their contents from one inference to the next: live before the first operator and after the last
+            prod[i] = -1
+            last[i] = len(ops)
     return prod, last
 
 
